@@ -183,6 +183,8 @@ func c05Err(err error) string {
 		return "!exists"
 	case strings.Contains(msg, "blank id"):
 		return "!blank"
+	case strings.Contains(msg, "key too large"):
+		return "!toolarge" // bbolt: a link key (type byte + id) longer than MaxKeySize
 	}
 	return "!other(" + strings.ReplaceAll(msg, " ", "_") + ")"
 }
